@@ -622,6 +622,10 @@ class C06(Check):
             sleeper = self._prepare_prior(out, v, d, tag)
         try:
             r = tools.run([*pre, tools.linker_path("wild"), *a, *args, "-o", out], cwd=cwd, env=env, timeout=180)
+            if r.timed_out and sleeper is None:   # overloaded machine: one retry with a long timeout
+                if v is not None:
+                    self._prepare_prior(out, v, d, tag)
+                r = tools.run([*pre, tools.linker_path("wild"), *a, *args, "-o", out], cwd=cwd, env=env, timeout=900)
         finally:
             if sleeper is not None:
                 try:
